@@ -16,4 +16,6 @@ for PROP in ${PROPS//,/ }; do
   grep "^VIOLATION" /tmp/seedtest_out_$PROP.txt | head -2
 done
 cd /repo && git checkout -q -- . && git clean -fdq -e target
+# the harness binary was built from the seeded tree: rebuild it from the restored one
+(cd /verif/harness && CARGO_NET_OFFLINE=true cargo build --offline -q 2>/dev/null)
 git status --porcelain | head -3
